@@ -209,6 +209,70 @@ Example schema_example :
   fields_cmp (rd_soa [[97]] [[98]] 1 2 3 4 5) (rd_soa [[65]] [[98]] 1 2 3 4 6) = Ok Lt.
 Proof. vm_compute. auto. Qed.
 
+(* further instances (T1 item <type>_fields_ok pins order and methods) *)
+Definition rd_name1 (n : name) : list field := [FName n].   (* NS CNAME PTR DNAME MB MD MF MG MR *)
+Definition rd_name2 (a b : name) : list field := [FName a; FName b].   (* MINFO RP *)
+Definition rd_tlsa (usage selector mtype : N) (data : bytes) : list field :=
+  [FFixed [usage]; FFixed [selector]; FFixed [mtype]; FTail data].
+Definition rd_sshfp (alg ftype : N) (fp : bytes) : list field := [FFixed [alg]; FFixed [ftype]; FTail fp].
+Definition rd_zonemd (serial scheme algo : N) (digest : bytes) : list field :=
+  [FFixed (be32 serial); FFixed [scheme]; FFixed [algo]; FTail digest].
+Definition rd_rrsig (covered alg labels ottl expiration inception tag : N) (signer : name) (sig : bytes)
+  : list field :=
+  [FFixed (be16 covered); FFixed [alg]; FFixed [labels]; FFixed (be32 ottl); FFixed (be32 expiration);
+   FFixed (be32 inception); FFixed (be16 tag); FName signer; FTail sig].
+Definition rd_nsec3 (halg flags iter : N) (salt next types : bytes) : list field :=
+  [FFixed [halg]; FFixed [flags]; FFixed (be16 iter); FStr salt; FStr next; FTail types].
+Definition rd_nsec3param (halg flags iter : N) (salt : bytes) : list field :=
+  [FFixed [halg]; FFixed [flags]; FFixed (be16 iter); FStr salt].
+Definition rd_caa (flags : N) (tag value : bytes) : list field := [FFixed [flags]; FStr tag; FTail value].
+Definition rd_naptr (order pref : N) (flags services regexp : bytes) (repl : name) : list field :=
+  [FFixed (be16 order); FFixed (be16 pref); FStr flags; FStr services; FStr regexp; FName repl].
+
+Theorem name1_canonical_bytewise n1 n2 : valid_abs n1 -> valid_abs n2 ->
+  fields_cmp (rd_name1 n1) (rd_name1 n2) = Ok (lex_cmp (fields_enc (rd_name1 n1)) (fields_enc (rd_name1 n2))).
+Proof. unfold rd_name1. schema_instance. Qed.
+Theorem name2_canonical_bytewise a1 b1 a2 b2 : valid_abs a1 -> valid_abs b1 -> valid_abs a2 -> valid_abs b2 ->
+  fields_cmp (rd_name2 a1 b1) (rd_name2 a2 b2) = Ok (lex_cmp (fields_enc (rd_name2 a1 b1)) (fields_enc (rd_name2 a2 b2))).
+Proof. unfold rd_name2. schema_instance. Qed.
+Theorem tlsa_canonical_bytewise u1 s1 m1 d1 u2 s2 m2 d2 :
+  fields_cmp (rd_tlsa u1 s1 m1 d1) (rd_tlsa u2 s2 m2 d2) =
+  Ok (lex_cmp (fields_enc (rd_tlsa u1 s1 m1 d1)) (fields_enc (rd_tlsa u2 s2 m2 d2))).
+Proof. unfold rd_tlsa. schema_instance. Qed.
+Theorem sshfp_canonical_bytewise a1 t1 f1 a2 t2 f2 :
+  fields_cmp (rd_sshfp a1 t1 f1) (rd_sshfp a2 t2 f2) =
+  Ok (lex_cmp (fields_enc (rd_sshfp a1 t1 f1)) (fields_enc (rd_sshfp a2 t2 f2))).
+Proof. unfold rd_sshfp. schema_instance. Qed.
+Theorem zonemd_canonical_bytewise s1 c1 a1 d1 s2 c2 a2 d2 :
+  fields_cmp (rd_zonemd s1 c1 a1 d1) (rd_zonemd s2 c2 a2 d2) =
+  Ok (lex_cmp (fields_enc (rd_zonemd s1 c1 a1 d1)) (fields_enc (rd_zonemd s2 c2 a2 d2))).
+Proof. unfold rd_zonemd. schema_instance. Qed.
+Theorem rrsig_canonical_bytewise c1 a1 l1 o1 e1 i1 t1 n1 s1 c2 a2 l2 o2 e2 i2 t2 n2 s2 :
+  valid_abs n1 -> valid_abs n2 ->
+  fields_cmp (rd_rrsig c1 a1 l1 o1 e1 i1 t1 n1 s1) (rd_rrsig c2 a2 l2 o2 e2 i2 t2 n2 s2) =
+  Ok (lex_cmp (fields_enc (rd_rrsig c1 a1 l1 o1 e1 i1 t1 n1 s1)) (fields_enc (rd_rrsig c2 a2 l2 o2 e2 i2 t2 n2 s2))).
+Proof. unfold rd_rrsig. schema_instance. Qed.
+Theorem nsec3_canonical_bytewise h1 f1 i1 s1 n1 t1 h2 f2 i2 s2 n2 t2 :
+  (length s1 <= 255)%nat -> (length n1 <= 255)%nat -> (length s2 <= 255)%nat -> (length n2 <= 255)%nat ->
+  fields_cmp (rd_nsec3 h1 f1 i1 s1 n1 t1) (rd_nsec3 h2 f2 i2 s2 n2 t2) =
+  Ok (lex_cmp (fields_enc (rd_nsec3 h1 f1 i1 s1 n1 t1)) (fields_enc (rd_nsec3 h2 f2 i2 s2 n2 t2))).
+Proof. unfold rd_nsec3. schema_instance. Qed.
+Theorem nsec3param_canonical_bytewise h1 f1 i1 s1 h2 f2 i2 s2 :
+  (length s1 <= 255)%nat -> (length s2 <= 255)%nat ->
+  fields_cmp (rd_nsec3param h1 f1 i1 s1) (rd_nsec3param h2 f2 i2 s2) =
+  Ok (lex_cmp (fields_enc (rd_nsec3param h1 f1 i1 s1)) (fields_enc (rd_nsec3param h2 f2 i2 s2))).
+Proof. unfold rd_nsec3param. schema_instance. Qed.
+Theorem caa_canonical_bytewise f1 t1 v1 f2 t2 v2 : (length t1 <= 255)%nat -> (length t2 <= 255)%nat ->
+  fields_cmp (rd_caa f1 t1 v1) (rd_caa f2 t2 v2) =
+  Ok (lex_cmp (fields_enc (rd_caa f1 t1 v1)) (fields_enc (rd_caa f2 t2 v2))).
+Proof. unfold rd_caa. schema_instance. Qed.
+Theorem naptr_canonical_bytewise o1 p1 f1 s1 r1 n1 o2 p2 f2 s2 r2 n2 :
+  (length f1 <= 255)%nat -> (length s1 <= 255)%nat -> (length r1 <= 255)%nat -> valid_abs n1 ->
+  (length f2 <= 255)%nat -> (length s2 <= 255)%nat -> (length r2 <= 255)%nat -> valid_abs n2 ->
+  fields_cmp (rd_naptr o1 p1 f1 s1 r1 n1) (rd_naptr o2 p2 f2 s2 r2 n2) =
+  Ok (lex_cmp (fields_enc (rd_naptr o1 p1 f1 s1 r1 n1)) (fields_enc (rd_naptr o2 p2 f2 s2 r2 n2))).
+Proof. unfold rd_naptr. schema_instance. Qed.
+
 (* ---- NSEC: the coded comparison compares `self.types` with itself *)
 
 Definition nsec_enc (n : name) (t : bytes) : bytes := wire_abs n ++ t.
@@ -351,6 +415,19 @@ Qed.
 Theorem unknown_eq_hash_refuted : exists r1 r2 d,
   unknown_eq_gen false r1 d r2 d = true /\ m_zone_unknown_hash r1 d <> m_zone_unknown_hash r2 d.
 Proof. exists 65280, 65281, [1]. split; [reflexivity|discriminate]. Qed.
+
+(* AllRecordData: == must be reflexive on the Unknown and Opt variants *)
+Lemma bytes_eqb_refl d : bytes_eqb d d = true.
+Proof. apply bytes_eqb_eq. reflexivity. Qed.
+
+Theorem all_record_data_eq_refl with_rtype r d :
+  all_eq_gen true (unknown_eq_gen with_rtype r d r d) = true /\ all_eq_gen true (bytes_eqb d d) = true.
+Proof.
+  unfold all_eq_gen, unknown_eq_gen. rewrite bytes_eqb_refl, N.eqb_refl. destruct with_rtype; auto.
+Qed.
+
+Theorem all_record_data_eq_refuted : forall inner, all_eq_gen false inner = false.
+Proof. reflexivity. Qed.
 
 (* ------------------------------------------------------------------ records *)
 
